@@ -222,6 +222,9 @@ func scenarios() []scenario {
 	{ // W3: wide runes at the end of a row that is not the last one (what they cover ends at the row's end)
 		ops := []op{{kind: "set", x: 2, y: 0, r: '世'}, {kind: "set", x: 2, y: 0, r: 'a'}, {kind: "set", x: 1, y: 0, r: '界', st: 1}, {kind: "set", x: 0, y: 1, r: 'y'},
 			{kind: "fill", r: 'b'}, {kind: "fill", r: '世'}, {kind: "clear"}, show}
+		// N: re-storing identical blank-like content (NUL, a control rune, a zero-width rune)
+		nops := []op{{kind: "set", x: 0, y: 0, r: 0}, {kind: "set", x: 0, y: 0, r: 0x1b}, {kind: "set", x: 0, y: 0, r: 0x200b}, {kind: "set", x: 0, y: 0, r: ' '}, show}
+		out = append(out, scenario{"N-restore-blanks-2x1", 2, 1, nops, 4, 5, []op{{kind: "clear"}, {kind: "show"}}})
 		out = append(out, scenario{"W3-wide-row-end-3x2", 3, 2, ops, 4, 5, []op{{kind: "clear"}, {kind: "show"}}}) // every cell holds a stored blank and is clean
 	}
 	{ // E: LINES / COLUMNS set to values that differ from the tty's size
@@ -1046,7 +1049,7 @@ func main() {
 					if sc.name[0] == 'L' {
 						depth = sc.dq // show; lock; set; show
 					}
-					if (sc.name[0] == 'L' && !cfg.brTrick) || sc.name[0] == 'M' || sc.name[0] == 'F' || sc.name[0] == 'E' || strings.HasPrefix(sc.name, "K2") {
+					if (sc.name[0] == 'L' && !cfg.brTrick) || sc.name[0] == 'M' || sc.name[0] == 'F' || sc.name[0] == 'E' || sc.name[0] == 'N' || strings.HasPrefix(sc.name, "K2") {
 						continue // independent of the description: covered on the reference configuration
 						// (locks do depend on it where the bottom-right cell is painted through its neighbour)
 					}
